@@ -190,7 +190,7 @@ package casketfile
 //@   ensures [known_iff_listed] p.validDirectives != nil ==> (result == exists(k, 0, len(p.validDirectives), p.validDirectives[k] == dir))
 //@   loop 1 invariant 0 <= #i && #i <= len(p.validDirectives) && forall(k, 0, #i, p.validDirectives[k] != dir)
 
-//@ unit lexer_next props=C10,C09 filter=`casketfile\.lexer\)\.next$`
+//@ unit lexer_next frames=on props=C10,C09 filter=`casketfile\.lexer\)\.next$`
 //@ ghost remaining int
 //@ // ghost: number of line feeds the reader has handed out so far (advanced by the ReadRune contract only)
 //@ ghost nlRead int
@@ -206,7 +206,7 @@ package casketfile
 //@ func (*lexer).next
 //@   may_panic
 //@   requires l != nil && l.reader != nil
-//@   modifies ghost:remaining, ghost:nlRead, lexer.line, lexer.token, Token.Text
+//@   modifies ghost:remaining, ghost:nlRead, lexer.line, lexer.token, Token
 //@   ensures [every_line_feed_counted] l.line - old(l.line) == nlRead - old(nlRead)
 //@   ensures [consumes_input] remaining <= old(remaining)
 //@   ensures [false_means_exhausted] !result ==> remaining == old(remaining) || remaining < old(remaining)
